@@ -277,6 +277,74 @@ func c16IBE(t *rapid.T, ev *evProp) {
 	msg := genPlain(t, maxLen, []int{0, 1, 15, 16, 17, hs - 1, hs, hs + 1, hs + 16, hs + 48})
 	ctx := fmt.Sprintf("ibe %s cpa=%v |id|=%d |msg|=%d hash=%d", c.name, cpa, len(id), len(msg), hs)
 	key := func(w string) string { return "C16/ibe/" + c.name + "/" + w }
+	// a sender's life: several messages to the same and to another identity under one master key
+	// through the same suite value, before the message of this case; every ciphertext decrypts with
+	// its identity's key right away and again after all later encryptions
+	if k := rapid.IntRange(0, 3).Draw(t, "earlier"); k > 0 {
+		id2 := append(append([]byte(nil), id...), 0x01)
+		priv2 := idG.G.Point().Mul(ms.S, idG.Hash(id2, nil))
+		type sent struct {
+			other bool
+			msg   []byte
+			cca   *ibe.Ciphertext
+			cpa   *ibe.CiphertextCPA
+		}
+		var log []sent
+		check := func(e sent, when string) bool {
+			pk := priv
+			if e.other {
+				pk = priv2
+			}
+			var pt []byte
+			var err error
+			if e.cpa != nil {
+				pt, err = ibe.DecryptCPAonG1(s, pk, &ibe.CiphertextCPA{RP: e.cpa.RP.Clone(), C: append([]byte(nil), e.cpa.C...)})
+			} else if c.onG1 {
+				pt, err = ibe.DecryptCCAonG1(s, pk, &ibe.Ciphertext{U: e.cca.U.Clone(), V: append([]byte(nil), e.cca.V...), W: append([]byte(nil), e.cca.W...)})
+			} else {
+				pt, err = ibe.DecryptCCAonG2(s, pk, &ibe.Ciphertext{U: e.cca.U.Clone(), V: append([]byte(nil), e.cca.V...), W: append([]byte(nil), e.cca.W...)})
+			}
+			if err != nil || !bytes.Equal(pt, e.msg) {
+				violationOrKnown(t, ev, key("sequence-roundtrip"), "message %d of a sequence to identities (same/other=%v) does not decrypt %s: err=%v\n%s", len(log), e.other, when, err, ctx)
+				return false
+			}
+			return true
+		}
+		for i := 0; i < k; i++ {
+			e := sent{other: rapid.IntRange(0, 3).Draw(t, "toOther") == 0, msg: rapid.SliceOfN(rapid.Byte(), 1, hs).Draw(t, "emsg")}
+			to := id
+			if e.other {
+				to = id2
+			}
+			var err error
+			if c.onG1 && rapid.IntRange(0, 3).Draw(t, "ecpa") == 0 {
+				e.cpa, err = ibe.EncryptCPAonG1(s, keyG.G.Point().Base(), master, to, e.msg)
+			} else if c.onG1 {
+				e.cca, err = ibe.EncryptCCAonG1(s, master, to, e.msg)
+			} else {
+				e.cca, err = ibe.EncryptCCAonG2(s, master, to, e.msg)
+			}
+			if err != nil {
+				violationOrKnown(t, ev, key("sequence-encrypt"), "encryption %d of a sequence refused a %d-byte message: %v\n%s", i, len(e.msg), err, ctx)
+				return
+			}
+			if !check(e, "right after encryption") {
+				return
+			}
+			log = append(log, e)
+		}
+		for _, e := range log {
+			if !check(e, "after the later encryptions") {
+				return
+			}
+		}
+		ctx += fmt.Sprintf(" after %d earlier messages", k)
+		// the master key and the generator were only read
+		if !master.Equal(keyG.G.Point().Mul(ms.S, nil)) {
+			violationOrKnown(t, ev, key("master-modified"), "the master public key changed during encryption\n%s", ctx)
+			return
+		}
+	}
 	if cpa {
 		var ct *ibe.CiphertextCPA
 		var err error
